@@ -26,6 +26,10 @@ type toSQLCase struct {
 	Incr     bool        `json:"incrementing,omitempty"`
 	Table    string      `json:"table"`
 	ReadBack bool        `json:"read_back,omitempty"`
+	// Preset: the dialect option used instead of EscapeChar ("sqlite", "mysql", "postgres"); IncrFirst: Incrementing()
+	// is given BEFORE the preset (the order of options must not matter)
+	Preset    string `json:"preset,omitempty"`
+	IncrFirst bool   `json:"incr_first,omitempty"`
 }
 
 func cellArg(k model.Kind, c model.Cell) driver.Value {
@@ -68,14 +72,33 @@ func runToSQLCase(c toSQLCase) *core.Failure {
 	var opts []qsql.ConfigFunc
 	opts = append(opts, qsql.Table(c.Table))
 	var esc rune
-	if c.Escape != "" {
-		esc = rune(c.Escape[0])
-		opts = append(opts, qsql.EscapeChar(esc))
+	if c.Preset != "" {
+		if c.Incr && c.IncrFirst {
+			opts = append(opts, qsql.Incrementing())
+		}
+		switch c.Preset {
+		case "sqlite":
+			opts, esc = append(opts, qsql.SQLite()), '"'
+		case "mysql":
+			opts, esc = append(opts, qsql.MySQL()), '`'
+		default:
+			opts, esc = append(opts, qsql.Postgres()), '"'
+			c.Incr = true
+		}
+		if c.Incr && !c.IncrFirst && c.Preset != "postgres" {
+			opts = append(opts, qsql.Incrementing())
+		}
+		c.Escape = string(esc)
+	} else {
+		if c.Escape != "" {
+			esc = rune(c.Escape[0])
+			opts = append(opts, qsql.EscapeChar(esc))
+		}
+		if c.Incr {
+			opts = append(opts, qsql.Incrementing())
+		}
 	}
 	st.Escape = esc
-	if c.Incr {
-		opts = append(opts, qsql.Incrementing())
-	}
 	// a short history: an earlier ToSQL call in the same process with the same table and dialect but
 	// other column names and order (statement text must not leak from one call to the next)
 	{
@@ -366,6 +389,21 @@ func c19Run(ctx *core.Ctx) {
 			}
 		}
 	}
+	// ---- dialect presets, with Incrementing() before and after them
+	for _, preset := range []string{"sqlite", "mysql", "postgres"} {
+		for _, incr := range []bool{false, true} {
+			for _, first := range []bool{false, true} {
+				if !ctx.Mine() {
+					continue
+				}
+				f := model.Frame{N: 2, Cols: []model.Col{
+					{Name: "A", Kind: model.Int, Cells: []model.Cell{model.I(1), model.I(2)}},
+					{Name: "B", Kind: model.String, Cells: []model.Cell{model.S("x"), model.Null()}},
+				}}
+				execT(toSQLCase{Kind: "tosql", Frame: f, Shape: int(ctx.Index() % int64(model.NShapes)), Incr: incr, Table: "t", ReadBack: true, Preset: preset, IncrFirst: first})
+			}
+		}
+	}
 	// ---- widths: 9..20 columns (two-digit placeholder numbers when Incrementing)
 	for _, nc := range []int{9, 10, 11, 12, 16, 17, 20} {
 		f := model.Frame{N: 2}
@@ -467,7 +505,7 @@ func c19Run(ctx *core.Ctx) {
 								}
 								rc.Rows = append(rc.Rows, row)
 							}
-							for _, prec := range []int{0, 2} {
+							for _, prec := range []int{0, 4, 2, 1} { // (a larger precision before a smaller one, in the same process)
 								rc.Precision = prec
 								execR(rc)
 							}
@@ -503,7 +541,7 @@ func init() {
 		ID:    "C19",
 		Level: "model_checking",
 		Rule: "ToSQL: every two-column frame over all 25 type pairs with 1-3 rows over per-type alphabets (nulls, NaN, -0, MaxInt64; string/enum columns not entirely null) x {no escape, \", `} x {?, $n} x {t, \"my table\"} x rotating index shape, against a recording in-memory database/sql driver, each preceded in the same process by a ToSQL call with the same table/dialect but other column names: exactly one INSERT per row in frame order with the specified text and the row's cells as arguments; with an escape character the rows are read back through ReadSQL from the store (enum columns return as strings). " +
-			"ReadSQL: every result set of 1-2 (thorough 3) columns drawn from 7 column alternatives (int64, int64+Int64ToBool, float64 with NULL, bool, text with NULL, []byte with NULL, text+StringToFloat with NULL) and 1-3 (4) rows with every cell assignment (NULL in every position incl. leading), Precision 0 and 2. All cases non-trivial; distinct by content.",
+			"ReadSQL: every result set of 1-2 (thorough 3) columns drawn from 7 column alternatives (int64, int64+Int64ToBool, float64 with NULL, bool, text with NULL, []byte with NULL, text+StringToFloat with NULL) and 1-3 (4) rows with every cell assignment (NULL in every position incl. leading), Precision 0, 4, 2, 1 (in that order). All cases non-trivial; distinct by content.",
 		Assumptions: []string{
 			"the harness driver (sqlmem) returns rows in insertion order with the stored column names and records statement texts/arguments as database/sql hands them over",
 			"columns are homogeneous; a column consisting of NULLs only is outside the property",
